@@ -20,6 +20,24 @@ def call(fn, *a, **k):
         return False, e
 
 
+def call_shallow(fn, *a, **k):
+    """call() on a fresh thread, i.e. from the bottom of an (almost) empty interpreter stack.  Whether a recursive library routine
+    reaches the interpreter's recursion limit depends on how deep the CALLER already is; the harness is a few dozen frames deep
+    and a replay in a fresh interpreter is not, so a run that sits on that edge would not be a function of its trace.  Deep-structure
+    histories (ladder maps, deep stacks, near-limit snake strings) make their library calls through here: same depth everywhere."""
+    import threading
+    box = []
+
+    def run():
+        box.append(call(fn, *a, **k))
+    t = threading.Thread(target=run)
+    t.start()
+    t.join()
+    if not box:      # the thread died of something call() does not catch (MemoryError ...)
+        return False, RuntimeError('library call did not return')
+    return box[0]
+
+
 def to01(bits):
     return bits.to01()
 
